@@ -1,10 +1,10 @@
 (* C07 - the SQL generated for a LogQL log query selects exactly the matching lines.
-   Statements only; proofs in proofs/SqlEvalProofs.v and proofs/LogqlSemProofs.v.
+   Statements only; proofs in proofs/SqlEvalProofs.v, proofs/LogqlSemProofs.v, proofs/LogqlSem2Base.v and proofs/LogqlSem2Proofs.v.
    Relative to the ClickHouse-subset semantics model/SqlEval.v (trusted) and the planner model
    model/LogqlPlan.v (tied to the Go planners byte for byte by checks/sqltext.py). *)
 From Coq Require Import List ZArith NArith QArith String Ascii Bool Permutation.
 From Qryn Require Import lib.Strs model.Sql model.Logql model.LogqlPlan model.SqlEval model.LogqlSem model.LogqlSemCheck
-  proofs.SqlEvalProofs proofs.LogqlSemProofs proofs.LogqlSemCheckProofs.
+  proofs.SqlEvalProofs proofs.LogqlSemProofs proofs.LogqlSemCheckProofs proofs.LogqlSem2Base proofs.LogqlSem2Proofs.
 Import ListNotations.
 Open Scope string_scope.
 
@@ -127,3 +127,37 @@ Theorem spec_oracle2_decides : forall re_match parse_float json_get hash_labels 
   <-> logql_sem2 re_match parse_float json_get hash_labels q c d res.
 Proof. exact sem2_b_iff. Qed.
 Print Assumptions spec_oracle2_decides.
+
+(* The whole SQL-planned pipeline: for every regex / float / json-extraction / label-hash oracle, every tie-breaking of
+   ClickHouse, every query whose pipeline is made of line filters, label filters (string and numeric, and/or/nesting), json
+   stages with parameters and drop stages IN ANY ORDER (in_fragment2: at least one json or drop), every context and every
+   database satisfying db_ok, under the same two guards as logql_log_partial (no matcher accepting "" meets a series lacking
+   its label; at most 63 matchers): the planners produce a SELECT, it evaluates, and its rows are exactly the reference
+   answer logql_sem2 - every line travels through the stages with its current label map and fingerprint (run_stages: a json
+   stage writes the extracted values over the labels and re-fingerprints, a drop removes labels, a filter reads the CURRENT
+   labels / the line text), restricted to the window and the queried type, a permutation of all surviving lines without
+   limit, a top-L set in the query direction with limit L, each line with its current labels.
+   Proved by induction over the pipeline (proofs/LogqlSem2Proofs.v: spl_rest) with an invariant relating the open select of
+   the planner built for a prefix to the live states of run_stages on that prefix (proofs/LogqlSem2Base.v: sinv). *)
+Theorem logql_log_partial_parsers :
+  forall re_match parse_float json_get hash_labels (tie : forall A : Type, list A -> list A),
+    (forall A (l : list A), Permutation (tie A l) l) ->
+    forall q c d, in_fragment2 q = true -> oracle_ok re_match parse_float q -> ctx_ok c = true -> db_ok c d ->
+    width_guard q = true -> absent_guard re_match q d ->
+    log_correct2 re_match parse_float json_get hash_labels tie q c d.
+Proof. exact logql_log_partial_parsers_proof. Qed.
+Print Assumptions logql_log_partial_parsers.
+
+(* its hypotheses are met by an ordinary query: |= "lev" | json lvl="level", m="msg" | lvl="info" | drop b, m="nope" != "zzz"
+   | json lvl="nothing" (limit 1, forward, cluster table names) over two lines of one stream; the SELECT the planners build
+   evaluates to the one surviving line with its final labels (lvl overwritten by the empty extraction, b dropped) and the
+   fingerprint of the last json stage *)
+Theorem logql_log_partial_parsers_guards_met :
+  in_fragment2 ex2_query = true /\ oracle_ok no_re no_float ex2_query /\ ctx_ok ex_ctx = true /\ db_ok ex_ctx ex2_db
+  /\ width_guard ex2_query = true /\ absent_guard no_re ex2_query ex2_db
+  /\ match log_select ex2_query ex_ctx with
+     | Some sel => option_map (map row_out) (eval no_re no_float ex2_json ex2_hash LogqlSemProofs.tie_id (to_sqldb ex_ctx ex2_db) sel)
+     | None => None end
+     = Some [Some {| o_fp := 102; o_labels := [("lvl", ""); ("m", "ok")]; o_line := ex2_line; o_ts := 1700000000000000005 |}].
+Proof. exact partial_parsers_guards_met. Qed.
+Print Assumptions logql_log_partial_parsers_guards_met.
